@@ -21,10 +21,11 @@ structure AppInv (d : Db) (a : App) : Prop where
   blkLt : a.init = false → d.blkAll (fun x => x.t < a.minValid)
   batchGe : ∀ p ∈ a.batch, a.minValid ≤ p.2.t ∧ p.2.t < MaxI64
 
-/-- The invariant of the mechanism model. -/
-structure Inv (d : Db) : Prop where
+/-- The invariant of the mechanism model, state part (independent of the open appender). -/
+structure InvS (d : Db) : Prop where
   idxNodup : d.series.Pairwise (fun s s' => s.idx ≠ s'.idx)
   physInc : ∀ s ∈ d.series, SInc s.phys
+  physNe : ∀ s ∈ d.series, s.phys ≠ []
   physLo : ∀ s ∈ d.series, ∀ x ∈ s.phys, d.minT ≤ x.t
   physHi : ∀ s ∈ d.series, ∀ x ∈ s.phys, x.t ≤ d.maxT
   physMax : ∀ s ∈ d.series, ∀ x ∈ s.phys, x.t < MaxI64
@@ -35,6 +36,9 @@ structure Inv (d : Db) : Prop where
   blkLtMinValid : d.blkAll (fun x => x.t < d.minValid)
   blkLtMaxT : d.blkAll (fun x => x.t < d.maxT)
   blkMax : d.blkAll (fun x => x.t < MaxI64)
+
+/-- The invariant of the mechanism model. -/
+structure Inv (d : Db) : Prop extends InvS d where
   appInv : ∀ a, d.app = some a → AppInv d a
 
 /-- The newest physical sample of every head series is not tombstoned (broken only by `delete`). -/
